@@ -83,6 +83,9 @@ func ParseReadDiscreteInputsRequestTCP(data []byte) (*ReadDiscreteInputsRequestT
 	if err != nil {
 		return nil, err
 	}
+	if tooShort := checkTCPRequestLength(header, data, FunctionReadDiscreteInputs, 12); tooShort != nil {
+		return nil, tooShort
+	}
 	unitID := data[6]
 	if data[7] != FunctionReadDiscreteInputs {
 		tmpErr := NewErrorParseTCP(ErrIllegalFunction, "received function code in packet is not 0x02")
